@@ -209,9 +209,13 @@ ConfAck ==
   /\ Tick /\ UNCHANGED <<att, cs, st>>
 
 \* the SOCKS connection of k is made from local port p
+\* Ports above 5000 stand for the same port number on another source address (a client of a SocksPort bound to a
+\* non-loopback address: 10.1.2.3:4001 is written 5001): our own SOCKS connections are local, so such a stream is
+\* never one of ours even when the numbers coincide
+Local(p) == p < 5000
 ViaAddr(k, p) ==
   /\ UNCHANGED told
-  /\ via[k].st = "waitaddr" /\ p \in Ports
+  /\ via[k].st = "waitaddr" /\ p \in Ports /\ Local(p)
   /\ \A j \in Conns : via[j].st = "reg" => via[j].port # p
   /\ \A s \in Streams : st[s].seen => st[s].port # p       \* the stream for this connection comes later
   /\ via' = [via EXCEPT ![k].st = "reg", ![k].port = p]
